@@ -311,6 +311,66 @@ fn pick_site(s: &S, ch: &mut Ch) -> Option<usize> {
     if allowed.is_empty() { None } else { Some(allowed[ch.pick(allowed.len())]) }
 }
 
+fn is_base_type(s: &S) -> bool {
+    match s.strip() {
+        S::Int | S::Bool | S::Type => true,
+        S::Pi { name: None, dom, cod, .. } => is_base_type(dom) && is_base_type(cod),
+        _ => false,
+    }
+}
+
+/// r6 at every annotation that is a base type or an arrow of base types; `n` counts them.
+fn wrap_annotations(s: &S, ch: &mut Ch, n: &mut usize) -> S {
+    let mut wrap = |a: &S, ch: &mut Ch, n: &mut usize| -> S {
+        if !is_base_type(a) || ch.chance(1, 4) {
+            return wrap_annotations(a, ch, n);
+        }
+        *n += 1;
+        let pool = [S::Int, S::Bool, S::Type, sast::arrow(S::Int, S::Int), sast::arrow(S::Bool, S::Int)];
+        let mut dead = pool[ch.pick(pool.len())].clone();
+        if dead == *a.strip() {
+            dead = sast::arrow(S::Type, S::Bool);
+        }
+        if ch.chance(1, 2) { sast::ite(S::True, a.clone(), dead) } else { sast::ite(S::False, dead, a.clone()) }
+    };
+    match s {
+        S::Lam { name, implicit, ann, body } => {
+            let ann = ann.as_ref().map(|a| Box::new(wrap(a, ch, n)));
+            S::Lam { name: name.clone(), implicit: *implicit, ann, body: Box::new(wrap_annotations(body, ch, n)) }
+        }
+        S::Pi { name, implicit, dom, cod } => {
+            let dom = Box::new(wrap_annotations(dom, ch, n));
+            S::Pi { name: name.clone(), implicit: *implicit, dom, cod: Box::new(wrap_annotations(cod, ch, n)) }
+        }
+        S::App(a, b) => {
+            let a = Box::new(wrap_annotations(a, ch, n));
+            S::App(a, Box::new(wrap_annotations(b, ch, n)))
+        }
+        S::Bin(op, a, b) => {
+            let a = Box::new(wrap_annotations(a, ch, n));
+            S::Bin(*op, a, Box::new(wrap_annotations(b, ch, n)))
+        }
+        S::Neg(a) => S::Neg(Box::new(wrap_annotations(a, ch, n))),
+        S::Paren(a) => S::Paren(Box::new(wrap_annotations(a, ch, n))),
+        S::If(a, b, c) => {
+            let a = Box::new(wrap_annotations(a, ch, n));
+            let b = Box::new(wrap_annotations(b, ch, n));
+            S::If(a, b, Box::new(wrap_annotations(c, ch, n)))
+        }
+        S::Let { defs, body } => {
+            let defs = defs
+                .iter()
+                .map(|d| {
+                    let ann = d.ann.as_ref().map(|a| wrap(a, ch, n));
+                    Def { name: d.name.clone(), ann, def: wrap_annotations(&d.def, ch, n) }
+                })
+                .collect();
+            S::Let { defs, body: Box::new(wrap_annotations(body, ch, n)) }
+        }
+        other => other.clone(),
+    }
+}
+
 /// Apply one rewrite; returns (rewritten, label, renaming used, site below the root?).
 fn rewrite(s: &S, root_type: &S, ch: &mut Ch) -> Option<(S, &'static str, bool)> {
     let mut used = BTreeSet::new();
@@ -507,6 +567,17 @@ fn rewrite(s: &S, root_type: &S, ch: &mut Ch) -> Option<(S, &'static str, bool)>
             ))
         }
         5 => {
+            // A third of the time r6 is applied to *every* annotation that is a closed base type or
+            // an arrow of base types, each with its own dead branch (`if true then T else D`,
+            // `if false then D else T`): types that the checker compares with each other are then
+            // both conditionals, with the same condition and different dead branches.
+            if ch.chance(1, 3) {
+                let mut n = 0;
+                let t = wrap_annotations(s, ch, &mut n);
+                if n >= 2 {
+                    return Some((t, "r6 every base-type annotation wrapped in a conditional with its own dead branch", true));
+                }
+            }
             let mut k = pick_site(s, ch)?;
             let below = k > 0;
             Some((map_nth(s, &mut k, &mut |x| sast::ite(S::True, x.clone(), x.clone())), "r6 if true then e else e", below))
@@ -786,7 +857,7 @@ pub fn def(tier: Tier) -> CheckDef {
     CheckDef {
         id: "C19",
         level: "exploration",
-        rule: "accepted type-directed generated programs (a quarter annotation-erased), each subjected to 1-4 rewrites at generated sites: r1 consistent renaming of a subset of binders to fresh names from ASCII / keyword-like / non-ASCII pools; r2 redundant parentheses around any node; r3 an unused definition (value and non-value, annotated or not) wrapped around any node or inserted at any position of an existing group; r4 a node named by a definition (with and without annotation); r5 a node wrapped in an immediately applied annotated identity (at the root or where the type is evident); r6 `if true then e else e`; r7 two adjacent function definitions swapped (functions that mention each other only when both are fully annotated); a third of the base programs are groups at the boundary of the definition-order rule (functions in value and non-value form mentioning earlier, later and nested definitions) rewritten mostly at the roots of their definitions, the rewritten program being in the domain when it still satisfies the rule as documented (R-order); oracle (no reference semantics) = the rewritten program is accepted, gram's own conversion judges the two reported types equal, and the `step` loop ends the same way (same literal / same kind; structurally identical value for parentheses-only rewrites); `gram check` / `gram run` exit status and printed value compared on a sample; non-trivial = at least one rewrite site below the root; per-rewrite counts are in the evidence; distinct by program pair",
+        rule: "accepted type-directed generated programs (a quarter annotation-erased), each subjected to 1-4 rewrites at generated sites: r1 consistent renaming of a subset of binders to fresh names from ASCII / keyword-like / non-ASCII pools; r2 redundant parentheses around any node; r3 an unused definition (value and non-value, annotated or not) wrapped around any node or inserted at any position of an existing group; r4 a node named by a definition (with and without annotation); r5 a node wrapped in an immediately applied annotated identity (at the root or where the type is evident); r6 `if true then e else e`, or every base-type annotation of the program wrapped in a conditional with its own dead branch (`if true then T else D` / `if false then D else T`); r7 two adjacent function definitions swapped (functions that mention each other only when both are fully annotated); a third of the base programs are groups at the boundary of the definition-order rule (functions in value and non-value form mentioning earlier, later and nested definitions) rewritten mostly at the roots of their definitions, the rewritten program being in the domain when it still satisfies the rule as documented (R-order); oracle (no reference semantics) = the rewritten program is accepted, gram's own conversion judges the two reported types equal, and the `step` loop ends the same way (same literal / same kind; structurally identical value for parentheses-only rewrites); `gram check` / `gram run` exit status and printed value compared on a sample; non-trivial = at least one rewrite site below the root; per-rewrite counts are in the evidence; distinct by program pair",
         assumptions: vec!["int / bool results of `gram run` print identically for both programs (no names involved)"],
         idle_limit_s: 90,
         needs_cli: true,
